@@ -65,6 +65,22 @@ Fixpoint cdel (t : cnode) (p : list key) : res cnode :=
     end
   end.
 
+(* Store._establish_path(path, {}): walk down `p`, creating the missing directory nodes (fresh uids) *)
+Fixpoint cestablish (t : cnode) (p : list key) (uid : N) : res (cnode * N) :=
+  match p with
+  | [] => Ok (t, uid)
+  | k :: r =>
+    match t with
+    | CDir u g c =>
+      match alookup k c with
+      | Some ch => rbind (cestablish ch r uid) (fun x => Ok (CDir u g (aset k (fst x) c), snd x))
+      | None => rbind (cestablish (CDir uid false []) r (N.succ uid))
+                      (fun x => Ok (CDir u g (aset k (fst x) c), snd x))
+      end
+    | _ => Err EInvalidPath
+    end
+  end.
+
 (* every (relative path, node) of the subtree, parents first, children in dict order (Store.depth) *)
 Fixpoint cdepth (t : cnode) (pre : list key) : list (list key * cnode) :=
   (pre, t) ::
@@ -184,13 +200,14 @@ Definition reports_generated (by_dict : bool) (sub : cnode) (root : list key) : 
 Inductive sop :=
 | OpAdd (k : key) (state : tree Z)
 | OpMove (source : key) (target : list key)          (* target: absolute path of the node the port leads to *)
+| OpMoveP (source : list key) (target : list key)    (* '_move' whose source is a nested path (length >= 2) *)
 | OpGenerate (k : key) (d : D) (init : tree Z)
 | OpDivide (mother : key) (daughters : list (key * option D * tree Z)) (choices : list bool)
 | OpDelete (k : key)
 | OpDeletePath (p : list key).                       (* '_delete': [(k,)] -- a path tuple instead of a key *)
 
 Definition op_rank (o : sop) : nat :=
-  match o with OpAdd _ _ => 0 | OpMove _ _ => 1 | OpGenerate _ _ _ => 2 | OpDivide _ _ _ => 3
+  match o with OpAdd _ _ => 0 | OpMove _ _ | OpMoveP _ _ => 1 | OpGenerate _ _ _ => 2 | OpDivide _ _ _ => 3
              | OpDelete _ | OpDeletePath _ => 5 end.
 
 Record variant := { v_fix_move : bool; v_fix_flow : bool; v_fix_delete_path : bool }.
@@ -251,6 +268,30 @@ Definition apply_op (t : cnode) (here : list key) (o : sop) (uid : N) : res (cno
                        r_step := filter (fun pp => pi_step (snd pp)) ps;
                        r_flow := flat_map (fun pp => if pi_step (snd pp) then [(fst pp, pi_flow (snd pp))] else []) ps;
                        r_deletions := [here ++ [source]]; r_expire := true |}, uid)))
+        end
+      end
+    | OpMoveP source target =>
+      (* Store.move with a nested source: add_node establishes the leading part of the source path under the
+         target and attaches the node at the same relative path; then the source is deleted *)
+      match source with
+      | [] => Err EInvalidPath
+      | _ :: _ =>
+        match cget t (here ++ source), cget t target with
+        | None, _ | _, None => Err EInvalidPath      (* get_path raises for a missing source / target node *)
+        | Some node, Some _ =>
+          match cget t (target ++ source) with
+          | Some _ => Err EOther        (* the target already holds that path: merged as an update; not generated *)
+          | None =>
+            rbind (cestablish t (target ++ removelast source) uid) (fun tu =>
+            rbind (cset (fst tu) (target ++ source) node) (fun t1 =>
+            rbind (cdel t1 (here ++ source)) (fun t2 =>
+              let ps := proc_nodes node (target ++ source) in
+              Ok (t2, {| r_topology := map fst ps;
+                         r_process := filter (fun pp => negb (pi_step (snd pp))) ps;
+                         r_step := filter (fun pp => pi_step (snd pp)) ps;
+                         r_flow := flat_map (fun pp => if pi_step (snd pp) then [(fst pp, pi_flow (snd pp))] else []) ps;
+                         r_deletions := [here ++ source]; r_expire := true |}, snd tu))))
+          end
         end
       end
     | OpDivide mother daughters choices =>
